@@ -250,7 +250,11 @@ func CoqCase(in *In, o *Out, fast bool) string {
 	case "givapply":
 		return fmt.Sprintf("(DGivApply %d %s %s %s %d %d %s)", in.Sub, CoqMat(in.M), F(s[0]), F(s[1]), in.I, in.K, CoqMat(o.Ms[0]))
 	case "gs":
-		return fmt.Sprintf("(DGS %s %s %s)", CoqMat(in.M), CoqMat(o.Ms[0]), CoqMat(o.Ms[1]))
+		r0 := NewFM(in.M.R, in.M.C)
+		if in.Garbage {
+			r0 = ReadMat(garbageMat("f64", in.M.R, in.M.C))
+		}
+		return fmt.Sprintf("(DGS %s %s %s %s)", CoqMat(r0), CoqMat(in.M), CoqMat(o.Ms[0]), CoqMat(o.Ms[1]))
 	case "hess":
 		return fmt.Sprintf("(DHess %s %s %s %s %s)", B(in.B2), B(in.B1), CoqMat(in.M), CoqMat(o.Ms[0]), CoqOptMat(o.Ms[1]))
 	case "bidiag":
